@@ -55,8 +55,13 @@ class Check(PropertyCheck):
         for i in range(n):
             names = [self.rng.choice(TAGNAMES) for _ in range(self.rng.range(1, 3))]
             tag = tag_of(names)
-            kind = self.rng.below(7)
+            kind = self.rng.below(9)
             k, nn = self.rng.below(10), self.rng.below(5)
+            if kind >= 7:      # an outer box holding 2..3 sibling boxes at different heights, each with its own tag
+                sib = self.siblings(k, nn)
+                if sib:
+                    out.append(sib)
+                continue
             if kind == 6:      # boxes nested 2..4 deep, one distinct tag per level
                 depth = self.rng.range(2, 4)
                 lv = list(TAGNAMES)
@@ -104,6 +109,56 @@ class Check(PropertyCheck):
                 t = gen.box(w, 1, inner=[" " + tag]) + "\n# Legend:\n%s = {fill:blue}\n" % names[0]
                 out.append((t, "rect", names, [], tag))
         return out
+
+    def siblings(self, k, nn):
+        """sibling boxes inside one outer box: different heights, some standing on the outer bottom border or leaning
+        against a side border without a blank cell in between, optionally a caption stacked on one of them; every sibling
+        carries its own tag. Returns a case of kind "siblings": names = [(x, y, tagname)] with the cell of each
+        sibling's top-left corner."""
+        rng = self.rng
+        lv = list(TAGNAMES)
+        rng.shuffle(lv)
+        nsib = rng.range(2, 3)
+        W, H = rng.range(24, 40), rng.range(8, 14)       # interior of the outer box
+        grid = [[" "] * W for _ in range(H)]
+        placed = []
+        for j in range(nsib):
+            tag = "{%s}" % lv[j]
+            w, h = len(tag) + rng.range(1, 4), rng.range(1, 3)
+            corners = rng.choice(["++++", "..''"])
+            for _ in range(40):
+                mode = rng.below(4)
+                if corners == "++++":
+                    # a sharp box may lean against the outer border without a blank cell in between
+                    x = 0 if mode == 0 else (W - (w + 2)) if mode == 1 else rng.range(0, W - (w + 2))
+                    y = (H - (h + 2)) if mode == 2 else rng.range(0, H - (h + 2))
+                else:
+                    # a rounded corner directly next to a border character is a different drawing: keep one blank cell
+                    x, y = rng.range(1, W - (w + 2) - 1), rng.range(1, H - (h + 2) - 1)
+                if all(x + w + 2 + 1 <= px or px + pw + 2 + 1 <= x or y + h + 2 + 1 <= py or py + ph + 2 + 1 <= y
+                       for (px, py, pw, ph, _) in placed):
+                    placed.append((x, y, w, h, lv[j]))
+                    rows = gen.box(w, h, corners=corners, inner=[" " + tag][: 1]).split("\n")
+                    for dy, r in enumerate(rows):
+                        for dx, ch in enumerate(r):
+                            grid[y + dy][x + dx] = ch
+                    break
+        if len(placed) < 2 or len({p[1] for p in placed}) < 2:
+            return None
+        # a caption of two or three rows stacked directly on top of the lowest sibling (when there is room)
+        low = max(placed, key=lambda p: p[1])
+        if rng.chance(1, 2):
+            for up in range(1, rng.range(2, 3) + 1):
+                yy = low[1] - up
+                if yy >= 0 and all(grid[yy][low[0] + dx] == " " for dx in range(min(3, low[2] + 2))) and \
+                        all(not (p[1] - 1 <= yy <= p[1] + p[3] + 2 and p[0] - 1 <= low[0] + 2 and low[0] <= p[0] + p[2] + 2)
+                            for p in placed if p is not low):
+                    for dx, ch in enumerate("cap"[: min(3, low[2] + 2)]):
+                        grid[yy][low[0] + dx] = ch
+        outer = gen.box(W, H, inner=["".join(r) for r in grid])
+        t = gen.place(outer, k, nn)
+        where = [(k + 1 + p[0], nn + 1 + p[1], p[4]) for p in placed]
+        return (t, "siblings", where, [], "{%s}" % placed[0][4])
 
     def correspondence(self):
         dis = []
@@ -243,6 +298,25 @@ class Check(PropertyCheck):
                                 bad = "the tag of nesting level %d is not applied to the innermost shape around it only" % (j + 1)
                         if any(("{%s}" % nm) in texts for nm in names):
                             bad = "a tag is rendered as text"
+                elif kind == "siblings":
+                    # names = [(column, row, tag name)] of each sibling's top-left corner; the outer box is the widest rect
+                    if any(("{%s}" % nm) in texts for (_, _, nm) in names):
+                        bad = "a tag is rendered as text"
+                    elif len(shapes) != len(names) + 1:
+                        bad = "%d sibling boxes in an outer box are not %d rects" % (len(names), len(names) + 1)
+                    else:
+                        allnames = [nm for (_, _, nm) in names]
+                        outer = max(shapes, key=lambda e: float(e.attrs["width"]) * float(e.attrs["height"]))
+                        if any(nm in outer.attrs.get("class", "").split() for nm in allnames):
+                            bad = "the tag of a sibling box is applied to the outer box"
+                        for (cx_, cy_, nm) in names:
+                            hit = [e for e in shapes if float(e.attrs["x"]) == 8 * cx_ + 4 and float(e.attrs["y"]) == 16 * cy_ + 8]
+                            if len(hit) != 1:
+                                bad = "a sibling box is not one rect at its place"
+                            else:
+                                cl = hit[0].attrs.get("class", "").split()
+                                if nm not in cl or any(o in cl for o in allnames if o != nm):
+                                    bad = "the tag of a sibling box is not applied to that box only"
                 elif kind == "nested":
                     if len(shapes) != 2:
                         bad = "nested boxes are not two rects"
